@@ -106,6 +106,8 @@ def monitor_run(run):
     hits = []
     outs = {o["id"]: o for o in run["outcomes"]}
     for o in run["outcomes"]:
+        if o.get("blocked"):
+            hits.append(dict(what="HandleMessage blocked (did not return within 2 s)", member=o["id"]))
         if o["err"] == "hang":
             hits.append(dict(what="Synchronize did not return after its context ended", member=o["id"]))
         if o["ncont"] > 1:
@@ -194,7 +196,8 @@ def run(pid, tier, seed):
     # ---- correspondence (operation lists the harness could not complete are reported by the monitor above)
     good = [sc for sc in scen if not any(o["bad"] for o in sc["ops"])]
     mism = []
-    shards = [(i // 70, good[i:i + 70]) for i in range(0, len(good), 70)]
+    per = max(40, min(150, -(-len(good) // 8)))   # one wave of 8 coqc processes in the quick tier
+    shards = [(i // per, good[i:i + per]) for i in range(0, len(good), per)]
     for m, out in vlib.parallel_map(lambda s: correspondence(chk, "%s_disc_%d" % (pid, s[0]), s[1]), shards):
         if m is None:
             chk.violation("corr_eval.txt", "in-Coq evaluation failed:\n" + out, no_input=True)
